@@ -152,6 +152,9 @@ func c07Round(rep *Report, m *MultiFixture, round int, ts []c07Tunnel) {
 		other := m.Users[(owner+1)%len(m.Users)]
 		c07Reuse(rep, m, other, m.Users[owner], e[1], round)
 	}
+	if round%2 == 0 {
+		c07InRace(rep, m, round, "C07")
+	}
 	sort.Slice(evs, func(i, j int) bool { return evs[i].seq < evs[j].seq })
 	var sb strings.Builder
 	for _, e := range evs {
@@ -401,5 +404,68 @@ func c07Reuse(rep *Report, m *MultiFixture, other, owner *MUser, connID string, 
 	}
 	for _, u := range []*MUser{other, owner} {
 		u.B.Reset()
+	}
+}
+
+// c07InRace: one RDG_OUT_DATA channel, then several RDG_IN_DATA requests under the
+// same connection id released at the same moment (the owner's and other users'):
+// at most one of them may become the tunnel's IN channel.
+func c07InRace(rep *Report, m *MultiFixture, round int, prop string) {
+	legacy := false
+	for _, tr := range Transports() {
+		legacy = legacy || tr == "legacy"
+	}
+	if !legacy {
+		return
+	}
+	for k := 0; k < 3; k++ {
+		id := NewConnID("race")
+		u := m.Users[(round+k)%len(m.Users)]
+		hc, err := DialH(m.GW.Addr, DialOpts{})
+		if err != nil {
+			rep.Inconclusive("in-race: " + err.Error())
+			return
+		}
+		r, err := hc.Do("RDG_OUT_DATA", GatewayPath, append(Hdr{{"Rdg-Connection-Id", id}, {"Accept", "*/*"}}, u.Headers...), nil, 10*time.Second)
+		if err != nil || r.Status != 200 {
+			hc.Close()
+			rep.Inconclusive("in-race: OUT channel not accepted")
+			continue
+		}
+		const K = 6
+		var wg sync.WaitGroup
+		var mu sync.Mutex
+		var accepted []string
+		var clients []*TClient
+		start := make(chan struct{})
+		for i := 0; i < K; i++ {
+			wg.Add(1)
+			go func(i int) {
+				defer wg.Done()
+				who := m.Users[(round+k+i)%len(m.Users)]
+				<-start
+				t, res, _ := OpenLegacy(m.GW.Addr, LegacyOpts{ConnID: id, SkipOut: true, InHeaders: who.Headers})
+				mu.Lock()
+				if res != nil && res.In != nil && res.In.Status == 200 {
+					accepted = append(accepted, who.Name)
+				}
+				if t != nil {
+					clients = append(clients, t)
+				}
+				mu.Unlock()
+			}(i)
+		}
+		close(start)
+		wg.Wait()
+		rep.Eval(HashStr("in-race", round, k, len(accepted)))
+		rep.Count("in_race_ids", 1)
+		rep.Count(fmt.Sprintf("in_race_accepted/%d", len(accepted)), 1)
+		if len(accepted) > 1 {
+			rep.Violate(prop+"/several-in-channels-on-one-tunnel", fmt.Sprintf("%d simultaneous RDG_IN_DATA requests under connection id %q of user %s: %d were accepted (by %v); one tunnel then serves several clients", K, id, u.Name, len(accepted), accepted), nil)
+		}
+		for _, t := range clients {
+			t.Close()
+		}
+		hc.Close()
 	}
 }
